@@ -311,7 +311,7 @@ def gen_lf(rng, li, max_frames=30, names_pool=None, origin=None):
                     bits.append([gen_bits(rng, ch['rep']) for _ in range(count)])
             rows.append({'fno': fno, 'bits': bits})
             fno += rng.wpick([(8, 1), (1, 2), (1, 5)])
-        frames.append({'name': rng.pick(['FR', '60B', '10B', 'F']) + str(ft + 1), 'desc': rng.pick(['', 'main', None]), 'channels': idx, 'rows': rows})
+        frames.append({'name': rng.pick(['FR', '60B', '10B', 'F', '0.1524M', 'FRAME.', 'A B']) + str(ft + 1), 'desc': rng.pick(['', 'main', None]), 'channels': idx, 'rows': rows})
     # interleave
     order = []
     left = [len(f['rows']) for f in frames]
